@@ -54,6 +54,8 @@ def missing_empty(ck, ctx):
 
 def parse_error(ck, ctx):
     F = ctx.F
+    # rendering the error must itself be total (an error at offset == len, e.g. after a trailing backslash, still has a line)
+    S.format_error_shape(ck, ctx, rule="parse-error")
     b = F.body(RD)
     R = ctx.res(b)
     # format_parse_error gets the depfile path
